@@ -758,3 +758,109 @@ def i1b(prog):
                              "msg": "the parent value takes %s() from `%s`, not from the cursor that climbed the import chain: after crossing an imported_unit boundary the parent carries the child's full import chain (child parent != the DIE, parent* never reaches root)" % (fn, name),
                              "detail": None})
     return inst, findings
+
+
+# ---------------------------------------------------------------------------
+# G2: find_attribute reaches an attribute through EITHER reference (abstract evaluation on small DIE graphs)
+
+class _ADie:
+    def __init__(self, name):
+        self.name = name
+        self.attrs = {}      # attribute code -> value (for references: another _ADie)
+        self.addr = 7000 + len(name)
+
+    def __repr__(self):
+        return self.name
+
+
+def g2(prog):
+    from absint import Evaluator
+    import itertools
+    inst, findings = [], []
+    f = prog.func_opt("(anonymous namespace)::find_attribute")
+    pred = prog.func_opt("(anonymous namespace)::attr_should_be_integrated")
+    if f is None or pred is None:
+        raise Broken("anchors find_attribute / attr_should_be_integrated vanished")
+    ats = {}
+    for e in prog.enums.values():
+        if e["file"] == "/usr/include/dwarf.h":
+            for c in e["consts"]:
+                if c["n"] in ("DW_AT_specification", "DW_AT_abstract_origin", "DW_AT_name", "DW_AT_sibling", "DW_AT_declaration", "DW_AT_inline"):
+                    ats[c["n"]] = c["v"]
+    res_enum = None
+    don_enum = None
+    for e in prog.enums.values():
+        names = [c["n"] for c in e["consts"]]
+        if "found_integrated" in names:
+            res_enum = {c["n"]: ("enum", c["n"], c["v"]) for c in e["consts"]}
+        if e["q"] == "doneness":
+            don_enum = {c["n"]: ("enum", c["n"], c["v"]) for c in e["consts"]}
+    if len(ats) < 6 or res_enum is None or don_enum is None:
+        raise Broken("enumerations needed by G2 not found")
+    iv = lambda x: x[2] if isinstance(x, tuple) and x and x[0] == "enum" else x
+    hooks = {
+        "dwarf_hasattr": lambda ev, o, a: iv(a[1]) in a[0].attrs,
+        "dwpp_attr": lambda ev, o, a: ("attr", a[0], iv(a[1])),
+        "dwpp_formref_die": lambda ev, o, a: a[0][1].attrs[a[0][2]],
+        "(anonymous namespace)::attr_should_be_integrated": lambda ev, o, a: ev.call(pred, None, a),
+        "(anonymous namespace)::find_attribute": lambda ev, o, a: ev.call(f, None, a),
+        "std::make_pair<*": lambda ev, o, a: (a[0], a[1]),
+        "ctor:std::pair<*": lambda ev, o, a: (a[0], a[1]) if len(a) == 2 else (a[0] if a else None),
+        "std::make_unique<value_die*": lambda ev, o, a: ("value_die", a[1]),
+    }
+    ev = Evaluator(hooks, {}, ptr_lt=True)
+    SPEC, AO = ats["DW_AT_specification"], ats["DW_AT_abstract_origin"]
+    queried = [ats["DW_AT_name"], ats["DW_AT_inline"], ats["DW_AT_sibling"], ats["DW_AT_declaration"]]
+    excluded = {ats["DW_AT_sibling"], ats["DW_AT_declaration"]}
+
+    def reachable(d, at, seen=()):
+        if at in d.attrs:
+            return "own"
+        if at in excluded:
+            return None
+        for ref in (SPEC, AO):
+            if ref in d.attrs and d.attrs[ref] not in seen:
+                if reachable(d.attrs[ref], at, seen + (d,)):
+                    return "integrated"
+        return None
+    n = 0
+    bad = None
+    # graphs: A with optional spec->S and ao->O; S and O optionally refer on to T; each of S, O, T may or may not carry the attribute
+    for has_spec, has_ao, s_has, o_has, s_to_t, o_to_t, t_has, a_has in itertools.product((False, True), repeat=8):
+        for at in queried:
+            A, S, O, T = _ADie("A"), _ADie("S"), _ADie("O"), _ADie("T")
+            if a_has:
+                A.attrs[at] = 1
+            if has_spec:
+                A.attrs[SPEC] = S
+            if has_ao:
+                A.attrs[AO] = O
+            if s_has:
+                S.attrs[at] = 1
+            if o_has:
+                O.attrs[at] = 1
+            if s_to_t:
+                S.attrs[AO] = T
+            if o_to_t:
+                O.attrs[SPEC] = T
+            if t_has:
+                T.attrs[at] = 1
+            for don in ("cooked", "raw"):
+                r = ev.call(f, None, [A, at, don_enum[don], None, None])
+                n += 1
+                got = r[0][1] if isinstance(r, tuple) and isinstance(r[0], tuple) else r
+                exp = reachable(A, at)
+                if don == "raw" and exp == "integrated":
+                    exp = None
+                want = {"own": "found", "integrated": "found_integrated", None: "not_found"}[exp]
+                if got != want and bad is None:
+                    desc = "A{%s%s%s} S{%s%s} O{%s%s} T{%s}" % ("X " if a_has else "", "spec->S " if has_spec else "", "ao->O" if has_ao else "",
+                                                              "X " if s_has else "", "ao->T" if s_to_t else "", "X " if o_has else "", "spec->T" if o_to_t else "", "X" if t_has else "")
+                    bad = "for attribute %s on %s (%s): find_attribute answers %s, the attribute is %s" % (
+                        [k for k, v in ats.items() if v == at][0], desc, don, got, want)
+    inst.append(("G2:find_attribute", {"die_graphs_x_attributes_x_modes": n}))
+    if bad:
+        findings.append({"key": "G2:find_attribute", "where": "libzwerg/builtin-dw.cc:%s" % f["l"].split(":")[-1],
+                         "msg": "`?AT_x` / `@AT_x` no longer find exactly the attributes reachable through DW_AT_specification OR DW_AT_abstract_origin: %s" % bad,
+                         "detail": None})
+    return inst, findings
